@@ -145,6 +145,11 @@ def _load_from_file_system(hashed_grammar, path, p_time, cache_path=None):
                 module_cache_item = pickle.load(f)
             finally:
                 gc.enable()
+        if not isinstance(module_cache_item, _NodeCacheItem):
+            return None
+        # Make sure that the item is complete.
+        module_cache_item.node, module_cache_item.lines, module_cache_item.last_used
+        change_time = module_cache_item.change_time
     except FileNotFoundError:
         return None
     except Exception:
@@ -153,9 +158,7 @@ def _load_from_file_system(hashed_grammar, path, p_time, cache_path=None):
         # cache directory that cannot be accessed are just cache misses.
         return None
     else:
-        if not isinstance(module_cache_item, _NodeCacheItem):
-            return None
-        if p_time > module_cache_item.change_time:
+        if p_time > change_time:
             # The pickle is newer than the file, but it was created from an
             # older version of the file (it was modified while being parsed).
             return None
